@@ -46,6 +46,11 @@ type App struct {
 	RestoreLog [][]byte
 	// Jitter, if set, delays the commit handler now and then (live engine)
 	Jitter *jitter
+	// OnEnter, if set (SetOnEnter), is called when the commit handler is entered,
+	// before the application's own lock is taken: a slow application, or one
+	// that acts on the node from another goroutine while a commit is in progress
+	onEnterMu sync.Mutex
+	onEnter   func(b *hg.Block)
 	// OnCommit, if set, is called inside the commit handler (used to submit
 	// follow-up transactions from within the commit callback).
 	OnCommit func(b *hg.Block)
@@ -109,6 +114,9 @@ func nextAppState(prev []byte, b *hg.BlockBody) []byte {
 // CommitHandler implements proxy.ProxyHandler.
 func (a *App) CommitHandler(block hg.Block) (proxy.CommitResponse, error) {
 	a.Jitter.nap()
+	if f := a.enterHook(); f != nil {
+		f(&block)
+	}
 	a.mu.Lock()
 	defer a.mu.Unlock()
 	body, jb := deepCopyBody(block.Body)
@@ -199,4 +207,16 @@ func (a *App) DeliveredCopy() []*Delivered {
 	a.mu.Lock()
 	defer a.mu.Unlock()
 	return append([]*Delivered{}, a.Delivered...)
+}
+
+func (a *App) SetOnEnter(f func(b *hg.Block)) {
+	a.onEnterMu.Lock()
+	a.onEnter = f
+	a.onEnterMu.Unlock()
+}
+
+func (a *App) enterHook() func(b *hg.Block) {
+	a.onEnterMu.Lock()
+	defer a.onEnterMu.Unlock()
+	return a.onEnter
 }
